@@ -67,6 +67,9 @@ def random_fn(rng, name, profile, helpers=(), in_module=False, forbid_names=()):
         if rng.random() < 0.8 and (f.is_async or not h[3]):
             f.calls.append((h[1], h[2], "%di32" % rng.randint(1, 9), h[3]))
     f.bounds = [h[0] for h in bounds]
+    if f.deps_kind in ("generic_ref", "impl_ref") and rng.random() < P.get("p_relaxed_deps", 0.08):
+        # a relaxed bound on the dependency: legal on the fn, never a requirement of the generated impl
+        f.bounds.insert(rng.randint(0, len(f.bounds)), "?Sized")
     f.bound_place = rng.choice(["inline", "where", "split"])
     if f.by_value():
         f.bounds.append("::vrt::Tag")
